@@ -25,6 +25,7 @@ class AnalysisError(Exception):
 class StepHooks(Hooks):
     def __init__(self, fn_body, flag="Continue", init_flag="Continue", solout_present=True, accept="then"):
         self.accept = accept
+        self.dense = "then"
         self.forced = {}
         self.flag = flag
         self.init_flag = init_flag
@@ -70,7 +71,9 @@ class StepHooks(Hooks):
             return self.accept
         c = node["cond"]
         if tast.contains(c, lambda x: x.get("k") == "Field" and (x.get("fdef") or "").endswith("::dense_output")):
-            return "then"
+            if self.dense == "else" and tast.contains(c, lambda x: x.get("k") == "Binary" and x["op"] == "Or"):
+                return None   # `dense_output || event`: event may still be true
+            return self.dense   # None = join both branches
         if c.get("k") == "LetExpr":
             init = c["init"]
             if "SolOut" in init.get("ty", "") or tast.contains(init, lambda x: x.get("k") == "Path" and "Option<&mut S>" in x.get("ty", "")):
@@ -204,10 +207,11 @@ class StepHooks(Hooks):
             self.breaks = breaks
 
 
-def analyse_solve(facts, fn_def, flag="Continue", init_flag="Continue", solout_present=True, accept="then", forced=None):
+def analyse_solve(facts, fn_def, flag="Continue", init_flag="Continue", solout_present=True, accept="then", forced=None, dense="then"):
     body = facts.body(fn_def)
     hk = StepHooks(body["body"], flag, init_flag, solout_present, accept)
     hk.forced = dict(forced or {})
+    hk.dense = dense
     sx = SymExec(facts, fn_def, hk)
     sx.bind_params()
     # log every float division inside component loops (tolerance-scaled vectors)
